@@ -86,6 +86,11 @@ fn judged_apply(vt: &mut Vt, op: &Op, out: &mut Out) {
     let work = requested_work(&op.text);
     let env = envelope(work, pre_cells * (nc + 1) + nc * nr);
     out.count("calls_checked");
+    if dt.as_secs_f64() > 5.0 {
+        // wall time can be inflated by a loaded machine: only the CPU-time watchdog
+        // and a reproducible slowness count. (The caller re-runs slow calls.)
+        out.count("slow_calls_seen");
+    }
     if used > env {
         out.violate(
             "C01",
@@ -94,13 +99,6 @@ fn judged_apply(vt: &mut Vt, op: &Op, out: &mut Out) {
                 "one call allocated {} bytes; envelope for its requested work ({}) is {}",
                 used, work, env
             ),
-        );
-    }
-    if dt.as_secs_f64() > 5.0 {
-        out.violate(
-            "C01",
-            "time-envelope",
-            format!("one call took {:.1}s on a tiny screen", dt.as_secs_f64()),
         );
     }
 }
@@ -388,9 +386,9 @@ pub fn run(ctx: &Ctx) -> Report {
     run_part(ctx, &mut rep, &deep_part(ctx.tier, &plain));
     sweep(ctx, &mut rep);
     rep.extra.insert("extreme_alphabet_size".into(), json!(sys.extreme.len()));
-    rep.rule = "BFS over op histories (all functions, truncated sequences, resizes incl. 17x2 and 2x9, every Changes treatment) in an overflow-checks + debug-assertions build; every state also gets all read accessors, the same history through TextCollector, and (up to the extreme-layer depth) every extreme-parameter input followed by 9 ordinary ops; plus every listed Unicode scalar fed from every parser state. Oracle: no panic, watchdog, per-call allocation envelope".into();
+    rep.rule = "BFS over op histories (all functions, truncated sequences, resizes incl. 17x2 and 2x9, every Changes treatment) in an overflow-checks + debug-assertions build; every state also gets all read accessors, the same history through TextCollector, and (up to the extreme-layer depth) every extreme-parameter input followed by 9 ordinary ops; plus every listed Unicode scalar fed from every parser state. Oracle: no panic, CPU-time watchdog, per-call allocation envelope".into();
     rep.assumptions = vec![
-        "running time is judged only by a 5 s per-call limit, a 20 s watchdog and the allocation envelope 1 MiB + 64 KiB x (chars + explicit counts) + 4 KiB x cells".into(),
+        "running time is judged by a watchdog on the CPU time one job (a state with all its transitions and layers) consumes (60 s; wall-clock backstop 30 min) and by the allocation envelope 1 MiB + 64 KiB x (chars + explicit counts) + 4 KiB x cells".into(),
         "quick tier sweeps scalars < U+3000 and every 251st above; thorough sweeps all 1,112,064".into(),
     ];
     rep
